@@ -1,0 +1,66 @@
+//go:build verif
+// +build verif
+
+package raft
+
+// This file is only compiled with the "verif" build tag (verification
+// harness for property C17). It adds code only: read access to the Raft
+// indexes/configuration behind a Consensus, and the one membership command the
+// public API never issues (adding a non-voting server), so that WaitForSync
+// can be observed on a peer that has a leader and a caught-up log but no vote.
+
+import (
+	"sort"
+
+	hraft "github.com/hashicorp/raft"
+	peer "github.com/libp2p/go-libp2p-core/peer"
+)
+
+// VerifRaftInfo is a snapshot of what WaitForSync looks at.
+type VerifRaftInfo struct {
+	Leader   string   // "" when unknown
+	Applied  uint64   // raft.AppliedIndex()
+	Last     uint64   // raft.LastIndex()
+	Voter    bool     // this peer is a Voter in the latest configuration
+	Member   bool     // this peer is in the latest configuration at all
+	Servers  []string // sorted server IDs of the latest configuration
+	Nonvoter []string // sorted IDs of the servers without a vote
+}
+
+// VerifRaftInfo reads the local Raft instance.
+func (cc *Consensus) VerifRaftInfo() (VerifRaftInfo, error) {
+	var info VerifRaftInfo
+	r := cc.raft.raft
+	info.Leader = string(r.Leader())
+	info.Applied = r.AppliedIndex()
+	info.Last = r.LastIndex()
+	f := r.GetConfiguration()
+	if err := f.Error(); err != nil {
+		return info, err
+	}
+	self := hraft.ServerID(peer.Encode(cc.host.ID()))
+	cfg := f.Configuration()
+	info.Voter = isVoter(self, cfg)
+	for _, s := range cfg.Servers {
+		info.Servers = append(info.Servers, string(s.ID))
+		if s.ID == self {
+			info.Member = true
+		}
+		if s.Suffrage != hraft.Voter {
+			info.Nonvoter = append(info.Nonvoter, string(s.ID))
+		}
+	}
+	sort.Strings(info.Servers)
+	sort.Strings(info.Nonvoter)
+	return info, nil
+}
+
+// VerifAddNonvoter asks the local Raft instance (which must be the leader) to
+// add pid as a server without a vote.
+func (cc *Consensus) VerifAddNonvoter(pid peer.ID) error {
+	id := peer.Encode(pid)
+	return cc.raft.raft.AddNonvoter(hraft.ServerID(id), hraft.ServerAddress(id), 0, 0).Error()
+}
+
+// VerifDataFolder is the folder holding the Raft database and snapshots.
+func (cc *Consensus) VerifDataFolder() string { return cc.config.GetDataFolder() }
